@@ -658,11 +658,36 @@ def auto_discharge_assert(site):
                     return 'A4: dominating comparison %s > %s' % (show(ca), show(cb))
                 if cop in ('Le', 'Lt') and nosite(cb) == nosite(a) and value_le(b, ca):
                     return 'A4: dominating comparison %s %s %s' % (show(ca), cop, show(cb))
+                if False:
+                    pass
+            # a private helper that takes the budget as a parameter: every caller passes a value it has tested to be non-zero
+            if b == ('const', 1) and a[0] == 'arg' and body.kind == 'Fn' and getattr(body, 'vis', 'Public') != 'Public':
+                sites = [(cb_, cs_) for cb_ in body.prog.bodies.values() if cb_.crate == body.crate for cs_ in cb_.calls() if cs_.callee == body.key]
+                def tested(cb_, cs_):
+                    if len(cs_.t['args']) < a[1]:
+                        return False
+                    x = nosite(cs_.arg(a[1] - 1))
+                    return any(cop == 'Ne' and cb2 == ('const', 0) and nosite(ca2) == x and is_param_value(ca2) and not wire_derived(ca2) for cop, ca2, cb2, _, _ in facts_at(cb_, cs_.bb) if cb2 is not None)
+                if sites and all(tested(cb_, cs_) for cb_, cs_ in sites):
+                    return 'A4s: budget parameter minus one; every caller (%d) passes a value it tested to be non-zero' % len(sites)
+            for cop, ca, cb, sbb, tb in (facts_at(body, site.bb) if signed_ok else []):
+                if cb is None:
+                    continue
                 if cop == 'Ne' and nosite(ca) == nosite(a) and cb == ('const', 0) and b == ('const', 1):
                     if ty in ('usize', 'u64', 'u32', 'u16', 'u8'):
                         return 'A4: unsigned operand known non-zero'
                     if is_param_value(a) and not wire_derived(a):
                         return 'A4s: non-zero budget parameter minus one (overflow only for a caller-supplied MIN, not for input data)'
+        return None
+    if msg == 'OverflowNeg' and 'cond' in t:
+        c = body.expr_op(t['cond'])
+        # -(x & small mask): the operand is a few low bits, never the minimum of its type
+        if c[0] == 'bin' and c[1] == 'Eq':
+            x = strip_casts(c[2])
+            if x[0] == 'bin' and x[1] == 'BitAnd':
+                m = strip_casts(x[3]) if strip_casts(x[3])[0] == 'const' else strip_casts(x[2])
+                if m[0] == 'const' and 0 <= m[1] < (1 << 7):
+                    return 'A9: negation of a value masked to %d (cannot be the minimum of its type)' % m[1]
         return None
     if msg in ('DivisionByZero', 'RemainderByZero'):
         c = body.expr_op(t['cond'])
